@@ -37,6 +37,11 @@ theorem tombInv_setValueVersion (db : Db) (k v : Bytes) (ver : Int) (st : Status
   · simp only [Option.some.injEq] at hg; subst hg; exact hst hd
   · exact h k' e hg hd
 
+theorem le_vinc (v : Int) : v ≤ vinc v := by unfold vinc; split <;> omega
+theorem vinc_le (v : Int) : vinc v ≤ v + 1 := by unfold vinc; split <;> omega
+theorem vinc_le_max (v : Int) (h : v ≤ 2147483647) : vinc v ≤ 2147483647 := by unfold vinc; split <;> omega
+theorem vinc_eq (v : Int) (h : v < 2147483647) : vinc v = v + 1 := by unfold vinc; simp [h]
+
 theorem updState_ne_deleted (s : Status) : updState s ≠ .deleted := by
   unfold updState; split <;> simp
 
@@ -172,7 +177,7 @@ theorem incStore_view (db : Db) (k next : Bytes) (op : Nat) :
 /-- increment adds exactly its argument to an integer (absent = 0) value … -/
 theorem incValue_ok_view (db db' : Db) (k : Bytes) (inc : Int) (op : Nat) (ps : List Push)
     (h : db.incValue k inc op = (db', .ok, ps)) :
-    ∃ cur, specNumeric db.view k = some cur ∧ Bytes.fitsI32 (cur + inc) = true ∧
+    ∃ cur, specNumeric db.view k = some cur ∧ Bytes.fitsI32 (cur + inc) = true ∧ db.versionCapped k = false ∧
       db'.view = fupd db.view k (some (Bytes.ofInt (cur + inc))) := by
   unfold Db.incValue at h
   rw [incText_view] at h
@@ -182,8 +187,11 @@ theorem incValue_ok_view (db db' : Db) (k : Bytes) (inc : Int) (op : Nat) (ps : 
     simp only [hp] at h
     split at h
     · rename_i hf
-      simp only [Prod.mk.injEq] at h
-      exact ⟨cur, hp, hf, by rw [← h.1]; exact incStore_view _ _ _ _⟩
+      split at h
+      · simp at h
+      · rename_i hcap
+        simp only [Prod.mk.injEq] at h
+        exact ⟨cur, hp, hf, by simpa using hcap, by rw [← h.1]; exact incStore_view _ _ _ _⟩
     · simp at h
 
 /-- … and refuses non-numeric text without changing anything … -/
@@ -196,9 +204,11 @@ theorem incValue_notNumeric (db db' : Db) (k : Bytes) (inc : Int) (op : Nat) (ps
   | none => simp only [hp, Prod.mk.injEq] at h; exact ⟨hp, h.1.symm, h.2.2.symm⟩
   | some cur =>
     simp only [hp] at h
-    split at h <;> simp at h
+    split at h
+    · split at h <;> simp at h
+    · simp at h
 
-/-- … and a sum outside `i32` likewise. -/
+/-- … and a sum outside `i32` likewise … -/
 theorem incValue_overflow (db db' : Db) (k : Bytes) (inc : Int) (op : Nat) (ps : List Push)
     (h : db.incValue k inc op = (db', .overflow, ps)) :
     (∃ cur, specNumeric db.view k = some cur ∧ Bytes.fitsI32 (cur + inc) = false) ∧ db' = db ∧ ps = [] := by
@@ -209,20 +219,37 @@ theorem incValue_overflow (db db' : Db) (k : Bytes) (inc : Int) (op : Nat) (ps :
   | some cur =>
     simp only [hp] at h
     split at h
-    · simp at h
+    · split at h <;> simp at h
     · rename_i hf
       simp only [Prod.mk.injEq] at h
       exact ⟨⟨cur, hp, by simpa using hf⟩, h.1.symm, h.2.2.symm⟩
+
+/-- … and so does a key whose version counter sits at `i32::MAX`. -/
+theorem incValue_versionCap (db db' : Db) (k : Bytes) (inc : Int) (op : Nat) (ps : List Push)
+    (h : db.incValue k inc op = (db', .versionCap, ps)) :
+    db.versionCapped k = true ∧ db' = db ∧ ps = [] := by
+  unfold Db.incValue at h
+  split at h
+  · split at h
+    · split at h
+      · rename_i hcap
+        simp only [Prod.mk.injEq] at h
+        exact ⟨hcap, h.1.symm, h.2.2.symm⟩
+      · simp at h
+    · simp at h
+  · simp at h
 
 theorem incValue_tombInv (db : Db) (k : Bytes) (inc : Int) (op : Nat) (h : TombInv db) :
     TombInv (db.incValue k inc op).1 := by
   unfold Db.incValue
   split
   · split
-    · simp only [Db.incStore]
-      split
-      · exact tombInv_setValueVersion _ _ _ _ _ _ _ _ h (fun e => absurd e (updState_ne_deleted _))
-      · exact tombInv_setValueVersion _ _ _ _ _ _ _ _ h (by simp)
+    · split
+      · exact h
+      · simp only [Db.incStore]
+        split
+        · exact tombInv_setValueVersion _ _ _ _ _ _ _ _ h (fun e => absurd e (updState_ne_deleted _))
+        · exact tombInv_setValueVersion _ _ _ _ _ _ _ _ h (by simp)
     · exact h
   · exact h
 
@@ -297,8 +324,10 @@ theorem incValue_noDup (db : Db) (k : Bytes) (inc : Int) (op : Nat) (h : AL.NoDu
   unfold Db.incValue
   split
   · split
-    · simp only [Db.incStore]
-      split <;> exact noDup_setValueVersion _ _ _ _ _ _ _ _ h
+    · split
+      · exact h
+      · simp only [Db.incStore]
+        split <;> exact noDup_setValueVersion _ _ _ _ _ _ _ _ h
     · exact h
   · exact h
 
